@@ -13,6 +13,7 @@ names of the Cell class itself, `modcell` on the new implementation.
 from __future__ import annotations
 
 import itertools
+import os
 
 from . import core
 
@@ -47,6 +48,120 @@ def _mesa():
     return dict(np=np, Cell=Cell, Agent=Agent, Model=Model, CellAgent=CellAgent, HexGrid=HexGrid,
                 OrthogonalMooreGrid=OrthogonalMooreGrid, OrthogonalVonNeumannGrid=OrthogonalVonNeumannGrid,
                 NewLayer=NewLayer, OldLayer=OldLayer, MultiGrid=MultiGrid, SingleGrid=SingleGrid)
+
+
+# --------------------------------------------------------------------------------------
+# generated model part: the attribute names of the grid's cell class (`add_property_layer`'s clash rule
+# is `hasattr(self.cell_klass, layer.name)`), re-extracted from the checked source on every run
+
+
+def _cell_ast_names(repo):
+    """names the *source* gives every cell of a Grid: `Cell.__slots__`, the methods, properties and other
+    class-level names of `class Cell` (cell.py) and the dict of the dynamic `GridCell` class (grid.py)"""
+    import ast
+
+    ds = os.path.join(repo, "mesa", "discrete_space")
+    tree = ast.parse(open(os.path.join(ds, "cell.py")).read())
+    cls = next(n for n in tree.body if isinstance(n, ast.ClassDef) and n.name == "Cell")
+    if any(not (isinstance(b, ast.Name) and b.id == "object") for b in cls.bases):
+        raise LookupError("Cell has base classes")
+    slots, methods, props, attrs = None, [], [], []
+    for n in cls.body:
+        if isinstance(n, ast.FunctionDef | ast.AsyncFunctionDef):
+            decos = {d.id if isinstance(d, ast.Name) else getattr(d, "attr", "?") for d in n.decorator_list}
+            (props if decos & {"property", "cached_property"} else methods).append(n.name)
+        elif isinstance(n, ast.Assign | ast.AnnAssign):
+            targets = n.targets if isinstance(n, ast.Assign) else [n.target]
+            for t in targets:
+                if not isinstance(t, ast.Name):
+                    raise LookupError("class-level assignment to a non-name")
+                if t.id == "__slots__":
+                    if not (isinstance(n.value, ast.List | ast.Tuple)
+                            and all(isinstance(e, ast.Constant) and isinstance(e.value, str) for e in n.value.elts)):
+                        raise LookupError("__slots__ is not a literal list of strings")
+                    slots = [e.value for e in n.value.elts]
+                elif isinstance(n, ast.Assign) or n.value is not None:
+                    attrs.append(t.id)
+    if slots is None:
+        raise LookupError("Cell.__slots__ not found")
+    gtree = ast.parse(open(os.path.join(ds, "grid.py")).read())
+    gcls = next(n for n in gtree.body if isinstance(n, ast.ClassDef) and n.name == "Grid")
+    init = next(n for n in gcls.body if isinstance(n, ast.FunctionDef) and n.name == "__init__")
+    dyn = None
+    for n in ast.walk(init):
+        if (isinstance(n, ast.Call) and isinstance(n.func, ast.Name) and n.func.id == "type" and len(n.args) == 3
+                and isinstance(n.args[0], ast.Constant) and n.args[0].value == "GridCell" and isinstance(n.args[2], ast.Dict)):
+            if not all(isinstance(k, ast.Constant) and isinstance(k.value, str) for k in n.args[2].keys):
+                raise LookupError("GridCell class dict has non-literal keys")
+            dyn = [k.value for k in n.args[2].keys]
+    if dyn is None:
+        raise LookupError("type('GridCell', ...) call not found in Grid.__init__")
+    return {"slots": sorted(slots), "methods": sorted(methods), "properties": sorted(props),
+            "classAttrs": sorted(attrs), "gridCellDict": sorted(dyn)}
+
+
+def _python_implied_names():
+    """what Python itself gives a class of that shape (slotted base with `__dict__`, dynamic subclass): the
+    attributes of `object` plus `__dict__`, `__doc__`, `__module__`, `__slots__`, `__weakref__` — no mesa involved"""
+    base = type("Base", (), {"__slots__": ["__dict__"], "__doc__": "x"})
+    return sorted(set(dir(type("Sub", (base,), {}))))
+
+
+_PROBE = None
+
+
+def cell_klass_probe():
+    """`dir(grid.cell_klass)` of a fresh grid of the running code, without the layer descriptors"""
+    global _PROBE
+    if _PROBE is None:
+        M = _mesa()
+        g = M["OrthogonalMooreGrid"]((2, 2), random=M["Model"](seed=0).random)
+        _PROBE = sorted(set(dir(g.cell_klass)) - set(g._mesa_property_layers))
+    return _PROBE
+
+
+def _lean_strs(l):
+    out, line = [], "  ["
+    for i, x in enumerate(l):
+        item = '"' + x + '"' + ("," if i < len(l) - 1 else "]")
+        if len(line) + len(item) > 100:
+            out.append(line.rstrip())
+            line = "   "
+        line += item + " "
+    if not l:
+        line += "]"
+    out.append(line.rstrip())
+    return "\n".join(out)
+
+
+def gen_tables():
+    """{relative lean path: content} — rewritten from MESA_REPO on every check"""
+    probe = cell_klass_probe()
+    implied = _python_implied_names()
+    try:
+        at = _cell_ast_names(core.REPO)
+        how = "ast"
+    except (LookupError, StopIteration, SyntaxError, OSError) as e:
+        # harmless refactor of the class body's shape: fall back to what the running code reports
+        rest = sorted(set(probe) - set(implied))
+        at = {"slots": [], "methods": rest, "properties": [], "classAttrs": [], "gridCellDict": []}
+        how = f"probe (AST shape not found: {type(e).__name__})"
+    L = ["/-! GENERATED by harness/layers_common.py `gen_tables()` from mesa/discrete_space/cell.py and grid.py of the",
+         "checked repository — rewritten on every check, do not edit.",
+         "`cellSlots` … `gridCellDict`: names found in the source (AST of `class Cell` and of the `type(\"GridCell\", …)` call",
+         "in `Grid.__init__`); `pythonImplied`: what Python gives any class of that shape; `cellKlassProbe`:",
+         "`dir(grid.cell_klass)` of a fresh grid of the running code, layer descriptors removed. -/",
+         "namespace Mesa.Layers.Gen", "",
+         f'def tablesFrom : String := "{how}"',
+         f"def cellSlots : List String :=\n{_lean_strs(at['slots'])}",
+         f"def cellMethods : List String :=\n{_lean_strs(at['methods'])}",
+         f"def cellProperties : List String :=\n{_lean_strs(at['properties'])}",
+         f"def cellClassAttrs : List String :=\n{_lean_strs(at['classAttrs'])}",
+         f"def gridCellDict : List String :=\n{_lean_strs(at['gridCellDict'])}",
+         f"def pythonImplied : List String :=\n{_lean_strs(implied)}",
+         f"def cellKlassProbe : List String :=\n{_lean_strs(probe)}",
+         "", "end Mesa.Layers.Gen"]
+    return {"MesaModel/Gen/LayersTables.lean": "\n".join(L) + "\n"}
 
 
 def parse_coord(s):
@@ -785,6 +900,8 @@ class Gen:
         self.lines = [f"scenario {self.kind} {'x'.join(map(str, self.dims))} {self.cap} {self.gridclass} {int(self.torus)}"]
         self.handles, self.saved, self.where = [], [], {}
         self.muls = 0
+        # names the cell class of the running code has (the generated table of the model): a layer may not take them
+        self.all_clash = cell_klass_probe() if self.kind == "new" else []
 
     # helpers -------------------------------------------------------------------------
     def val(self, dtype):
@@ -831,6 +948,12 @@ class Gen:
     def emit(self, line):
         self.lines.append(line)
 
+    def clash_pool(self):
+        """the six classic names, and (one time in three) any attribute name of the cell class"""
+        if self.all_clash and self.R.random() < 0.34:
+            return [self.R.choice(self.all_clash)]
+        return list(CLASH_NAMES)
+
     # ops ------------------------------------------------------------------------------
     def op_create(self):
         R = self.R
@@ -838,7 +961,7 @@ class Gen:
         r = R.random()
         bad = 0.45 if self.rejecting else 0.1
         if r < bad:
-            name = R.choice(list(CLASH_NAMES) + ["empty"] + self.attached_names()[:2] if self.kind == "new"
+            name = R.choice(self.clash_pool() + ["empty"] + self.attached_names()[:2] if self.kind == "new"
                             else (self.attached_names() or pool))
         else:
             free = [n for n in pool if n not in self.attached_names()]
@@ -861,7 +984,7 @@ class Gen:
             self.layers.append(dict(name=name, dtype=dt, dims=tuple(dims), att=False))
             return
         self.emit(f"create {name} {dt} {d}")
-        ok = name not in self.attached_names() and not (self.kind == "new" and (name in CLASH_NAMES))
+        ok = name not in self.attached_names() and not (self.kind == "new" and (name in self.all_clash))
         if ok:
             self.layers.append(dict(name=name, dtype=dt, dims=self.dims, att=True))
 
@@ -875,7 +998,7 @@ class Gen:
         l = self.layers[i]
         self.emit(f"attach {i}")
         if (not l["att"] and l["dims"] == self.dims and l["name"] not in self.attached_names()
-                and not (self.kind == "new" and l["name"] in CLASH_NAMES)):
+                and not (self.kind == "new" and l["name"] in self.all_clash)):
             l["att"] = True
 
     def op_detach(self):
@@ -915,7 +1038,7 @@ class Gen:
             return n
         if r < 0.93:
             return R.choice(GOOD_NAMES)
-        return R.choice(CLASH_NAMES)
+        return R.choice(self.clash_pool())
 
     def dtype_of_name(self, name):
         for l in self.layers:
